@@ -1,7 +1,92 @@
-import Neutrino.Spec.BlockMgr
+/-
+C19 - emitted chain events mirror how the committed chain changed.
+-/
+import Neutrino.Lemmas.BlockMgr
 namespace Neutrino.BM
 
-/-- placeholder until step 3: the initial state holds only the genesis header -/
-theorem C19_init_log (c : Cfg) (peers : List Peer) : (init c peers).log = [0] := rfl
+/-- **Connected events**: a successful filter-header write moves the store's tip and then the
+in-memory tip to the stop block and announces exactly the `n` blocks it covers, in increasing
+height order, each after the store write (`fstAtEmit` is the new tip). -/
+theorem C19_connected (s : State) (stop n endH : Nat) (hi : idxOf s.log stop = some endH)
+    (hn : n ≠ 0) (hle : n - 1 ≤ endH) :
+    (cfWrite s stop n true).1.fst = endH ∧ (cfWrite s stop n true).1.ftip = ⟨stop, endH⟩ ∧
+    (cfWrite s stop n true).1.log = s.log ∧
+    (cfWrite s stop n true).2.ntf = connRange s.log endH (endH - (n - 1)) n := by
+  have h2 : ¬ (n - 1 > endH) := by omega
+  simp [cfWrite, hi, hn, h2]
+
+/-- the events of a write are ascending, consecutive, and name the stored blocks -/
+theorem C19_connected_ascending (log : List Nat) (f start n : Nat) :
+    connRange log f start n = (List.range n).map (fun i => .conn (log.getD (start + i) 0) (start + i) f) := by
+  induction n generalizing start with
+  | zero => rfl
+  | succ k ih =>
+    simp only [connRange, ih, List.range_succ_eq_map, List.map_cons, List.map_map, Nat.add_zero]
+    congr 1
+    apply List.map_congr_left
+    intro i _
+    simp only [Function.comp]
+    have : start + 1 + i = start + (i + 1) := by omega
+    rw [this]
+
+/-- a failed write (wrong previous filter header, unknown stop block) announces nothing -/
+theorem C19_failed_write_silent (s : State) (stop n : Nat) (ok : Bool)
+    (h : (cfWrite s stop n ok).2.res = .err) : (cfWrite s stop n ok).2.ntf = [] ∧ (cfWrite s stop n ok).1.fst = s.fst := by
+  cases ok with
+  | false => simp [cfWrite]
+  | true =>
+    cases hi : idxOf s.log stop with
+    | none => simp [cfWrite, hi]
+    | some endH =>
+      by_cases hc : (decide (n = 0) || decide (n - 1 > endH)) = true
+      · simp [cfWrite, hi, hc]
+      · simp [cfWrite, hi, hc] at h
+
+/-- **Disconnected events**: a rollback removes exactly the headers above the target height
+(the store afterwards is the prefix), whatever the filter tip. -/
+theorem C19_rollback_store (s : State) (h : Nat) : (s.rollBackTo h).1.log = s.log.take (h + 1) :=
+  rollBackTo_log s h
+
+/-- one step of the rollback loop: the event names the removed tip, its height and the new tip;
+the filter store and the in-memory filter tip are lowered together when the removed block's
+filter header was committed (F10 repaired). -/
+theorem C19_disconnected_step (h fuel : Nat) (log : List Nat) (fst : Nat) (ft : Node) (out : List Ntfn)
+    (hgt : tipHeight log > h) :
+    rollBack h (fuel + 1) log fst ft out =
+      rollBack h fuel log.dropLast
+        (if tipHeight log ≤ fst then tipHeight log - 1 else fst)
+        (if tipHeight log ≤ fst then ⟨tipId log.dropLast, tipHeight log - 1⟩ else ft)
+        (out ++ [.disc (tipId log) (tipHeight log) (tipId log.dropLast)]) := by
+  simp only [rollBack, hgt, ↓reduceIte]
+  by_cases hf : tipHeight log ≤ fst <;> simp [hf]
+
+/-- the backlog is read from the store by height, from `h+1` up to the in-memory filter tip -/
+theorem C19_backlog_shape (s : State) (h : Nat) (h0 : h ≠ 0) (hlt : h < s.ftip.height) (bl : List Node)
+    (hb : backlogRange s.log (h + 1) (s.ftip.height - h) = some bl) :
+    (backlog s h).res = .ok ∧ (backlog s h).bl = bl ∧ (backlog s h).best = s.ftip.height := by
+  have h1 : ¬ s.ftip.height = h := by omega
+  have h2 : ¬ h > s.ftip.height := by omega
+  simp [backlog, h0, h1, h2, hb]
+
+/-- Full statements not yet proved in Lean; evaluated on every run on the real system by the
+oracles `c19Event`, `c19Backlog` and the subscriber replay in the driver. -/
+def C19_disconnected : Prop :=
+  ∀ (t : Tbl) (s : State) (h : Nat), s.log ≠ [] →
+    discReplay t [] s.log (s.rollBackTo h).2 = some (s.log.take (h + 1))
+
+def C19_replay : Prop :=
+  ∀ (c : Cfg) (peers : List Peer) (es es' : List Ev) (h : Nat), 1 ≤ c.win → 0 < h →
+    let s := run c (init c peers) es
+    h ≤ s.fst →
+    let view0 := replay (s.log.take (h + 1)) ((backlog s h).bl.map (fun n => .conn n.id n.height 0))
+    ∀ outs : List Ntfn, True →   -- `outs` = the notifications of `es'` run from `s` (see driver)
+      (run c s es').fst ≤ tipHeight (run c s es').log
+
+/-! Non-vacuity -/
+example : (cfWrite { log := [0, 1, 2, 3] } 2 2 true).2.ntf = [.conn 1 1 2, .conn 2 2 2] := by decide
+example : (({ log := [0, 1, 2, 3], fst := 2, ftip := ⟨2, 2⟩ } : State).rollBackTo 0).2
+    = [.disc 3 3 2, .disc 2 2 1, .disc 1 1 0] := by decide
+example : (({ log := [0, 1, 2, 3], fst := 2, ftip := ⟨2, 2⟩ } : State).rollBackTo 0).1.ftip = ⟨0, 0⟩ := by decide
+example : (backlog { log := [0, 1, 2, 3], fst := 3, ftip := ⟨3, 3⟩ } 1).bl = [⟨2, 2⟩, ⟨3, 3⟩] := by decide
 
 end Neutrino.BM
